@@ -38,7 +38,7 @@ const repoMod = "github.com/google/inverting-proxy"
 // path as unsupported, never with a silent zero value.
 var defaultInit = []string{"io", "errors", "strings", "strconv", "bytes", "unicode/utf8", "context", "net/http", "net/textproto", "net/url",
 	"vendor/golang.org/x/net/http/httpguts", "encoding/hex", "encoding/base64", "io/fs", "os", "syscall", "internal/oserror", "internal/poll", "math/rand",
-	"github.com/gorilla/websocket", "container/list", "sort", "path", "net/http/internal", "net/http/internal/ascii", "mime", "bufio", "net", "sync", "time"}
+	"github.com/gorilla/websocket", "container/list", "sort", "path", "net/http/httputil", "net/http/cookiejar", "golang.org/x/net/publicsuffix", "net/http/httptrace", "github.com/golang/groupcache/lru", "github.com/google/uuid", "net/http/internal", "net/http/internal/ascii", "mime", "bufio", "net", "sync", "time"}
 
 var (
 	verifDir = envOr("VERIF_DIR", "/verif")
@@ -66,6 +66,7 @@ type TierSpec struct {
 	MaxPaths  int            `json:"max_paths"`
 	Witnesses int            `json:"witnesses"`
 	MaxSteps  int            `json:"max_steps"`
+	Sched     string         `json:"sched"` // "" = every order at blocking points; "det" = one round-robin order
 }
 
 type RunSpec struct {
@@ -720,12 +721,14 @@ func newEngine(prog *ssa.Program, run *RunSpec, ts *TierSpec, knownIDs map[strin
 	if ts.MaxSteps > 0 {
 		e.maxSteps = ts.MaxSteps
 	}
+	e.initDeny = map[string]bool{}
 	for _, p := range defaultInit {
 		e.initAllow[p] = true
 	}
 	for _, p := range run.Init {
 		if strings.HasPrefix(p, "-") {
 			delete(e.initAllow, p[1:])
+			e.initDeny[p[1:]] = true
 		} else {
 			e.initAllow[p] = true
 		}
@@ -739,6 +742,7 @@ func newEngine(prog *ssa.Program, run *RunSpec, ts *TierSpec, knownIDs map[strin
 	e.setupHTTPModel()
 	e.setupModels()
 	e.maxPreempts = ts.Preempts
+	e.detSched = ts.Sched == "det"
 	e.memYield = ts.MemYield
 	e.fnInfos = map[*ssa.Function]*fnInfo{}
 	e.fnMetas = map[*ssa.Function]*fnMeta{}
